@@ -11,4 +11,19 @@ for id in $(python3 -c "import json;print(' '.join(c['property_id'] for c in jso
   [ $e -ne 0 ] && rc=1
   echo "$id exit=$e $(( $(date +%s) - s ))s $(tail -1 .build/$id.log | cut -c1-160)"
 done
+# every evidence file must validate against the schema (a file that does not is treated as no evidence)
+if command -v python3-vt >/dev/null && [ -f /root/.vp/EVIDENCE.schema.json ]; then
+  python3-vt - <<'PY' || rc=1
+import json, glob, sys, jsonschema
+es = json.load(open('/root/.vp/EVIDENCE.schema.json'))
+bad = 0
+for f in sorted(glob.glob('evidence/*.json')):
+    try:
+        jsonschema.validate(json.load(open(f)), es)
+    except Exception as e:
+        bad += 1
+        print("EVIDENCE-INVALID", f, str(e).splitlines()[0])
+sys.exit(1 if bad else 0)
+PY
+fi
 exit $rc
